@@ -1,6 +1,7 @@
 package main
 
 import (
+	"reflect"
 	"context"
 	"os/exec"
 	"strconv"
@@ -885,6 +886,54 @@ func selectLits(p *packages.Package, fd *ast.FuncDecl, sel string) []*ast.FuncLi
 					out = append(out, &ast.FuncLit{
 						Type: &ast.FuncType{Func: is.Pos(), Params: &ast.FieldList{}},
 						Body: &ast.BlockStmt{Lbrace: is.Pos() - 1, List: []ast.Stmt{is}, Rbrace: is.End()},
+					})
+				}
+			}
+			return true
+		})
+	case strings.HasPrefix(sel, "for:"):
+		// for:<ident>[#k]: the body of the (k-th, in source order) for / range statement whose header
+		// (init, condition, post, range expression, key, value) mentions the identifier, verified as a block
+		// in which every variable of the enclosing function is arbitrary: one arbitrary iteration
+		want := strings.TrimPrefix(sel, "for:")
+		k := 0
+		if i := strings.Index(want, "#"); i >= 0 {
+			fmt.Sscanf(want[i+1:], "%d", &k)
+			want = want[:i]
+		}
+		n := 0
+		mentions := func(xs ...ast.Node) bool {
+			found := false
+			for _, x := range xs {
+				if x == nil || reflect.ValueOf(x).IsNil() {
+					continue
+				}
+				ast.Inspect(x, func(y ast.Node) bool {
+					if id, ok := y.(*ast.Ident); ok && id.Name == want {
+						found = true
+					}
+					return !found
+				})
+			}
+			return found
+		}
+		ast.Inspect(fd.Body, func(m ast.Node) bool {
+			var body *ast.BlockStmt
+			hit := false
+			switch l := m.(type) {
+			case *ast.ForStmt:
+				body = l.Body
+				hit = mentions(l.Init, l.Cond, l.Post)
+			case *ast.RangeStmt:
+				body = l.Body
+				hit = mentions(l.Key, l.Value, l.X)
+			}
+			if body != nil && hit {
+				n++
+				if k == 0 || n == k {
+					out = append(out, &ast.FuncLit{
+						Type: &ast.FuncType{Func: body.Lbrace, Params: &ast.FieldList{}},
+						Body: &ast.BlockStmt{Lbrace: body.Lbrace, List: body.List, Rbrace: body.Rbrace},
 					})
 				}
 			}
